@@ -44,7 +44,7 @@ def run(res, tier):
         n, bad, st = validate_traces(tmp, tr, "health_traces.ndjson", "L4HealthTrace.tla", "L4HealthTrace.cfg", max_shards=4)
         cov["traces_validated_against_impl"] = n
         cov["runs"] = dict(scenarios=s["runs"], max_sleep_overshoot_ms=s["max_sleep_overshoot_ms"],
-                           grid="window (fail_duration x max_fails x failure/wait/sample scripts), retry (try_duration x try_interval x passive checks x upstreams), limit (max_connections | unhealthy_connection_count x upstreams), active (interval); enumerated by TLC from L4HealthGrid")
+                           grid="window (fail_duration x max_fails x failure/wait/sample scripts), retry (try_duration x try_interval x passive checks x upstreams), limit (max_connections | unhealthy_connection_count x upstreams x selection policy; a refusing upstream listed before the serving one, connections retried), active (interval, health port, default interval), fresh (a peer marked down by a handler that is then unloaded, a new handler for the same dial address written host:port or tcp/host:port); enumerated by TLC from L4HealthGrid")
         cov["samples"] = s["samples"][:3]
         traces = {}
         for line in open(tr):
